@@ -1451,6 +1451,25 @@ class ModuleScope(VhdlScope):
         "signed",
         "unsigned",
         "resize",
+        # predefined names the emitted code itself relies on,
+        # user objects with these names would hide them
+        "boolean",
+        "integer",
+        "string",
+        "true",
+        "false",
+        "to_integer",
+        "to_unsigned",
+        "to_signed",
+        "shift_left",
+        "shift_right",
+        "rising_edge",
+        "falling_edge",
+        "cohdl_bool_to_std_logic",
+        "ieee",
+        "std_logic_1164",
+        "numeric_std",
+        "work",
     }
 
     def __init__(self, *, additional_reserved_names: set[str] = None):
